@@ -87,10 +87,15 @@ fn judge_sink(out: &crate::world::OutFile, lowercased: bool, earlier_csv: &[Vec<
                             if persist {
                                 // each record parses back to exactly the response that was produced
                                 let mut used = vec![false; recs.len()];
+                                // (a CSV sink records its unmappable columns inside the response before the sinks
+                                // configured after it - and the caller - see it: the record of this sink carries
+                                // those keys exactly if a CSV sink is configured before it, the returned response
+                                // whenever the run had a CSV sink at all)
+                                let csv_before = !earlier_csv.is_empty();
                                 for r in returned_search {
-                                    let r = if any_csv { strip_csv_keys(r) } else { r.clone() };
+                                    let r = if any_csv && !csv_before { strip_csv_keys(r) } else { r.clone() };
                                     let key = canon_blind(&r);
-                                    let hit = recs_cmp.iter().enumerate().position(|(i, x)| !used[i] && canon_blind(x) == key && json_close(x, &r, 1e-12));
+                                    let hit = recs.iter().enumerate().position(|(i, x)| !used[i] && canon_blind(x) == key && json_close(x, &r, 1e-12));
                                     match hit {
                                         Some(i) => used[i] = true,
                                         None => {
